@@ -220,6 +220,33 @@ Proof.
   rewrite <- !app_assoc. reflexivity.
 Qed.
 
+(** a top-level call traced WITHOUT the transaction-level callbacks (EVM.Call driven directly: no CaptureTxStart/TxEnd):
+    the frame's gas and gas used stay 0, everything else as in [ct_tree_exact] *)
+Definition events_call (x : txtree) : list tev :=
+  TStart (x_from x) (x_to x) (x_create x) (x_input x) (x_gas x) (x_value x)
+  :: flat_map events_a (x_pre x) ++ flat_map events_c (x_body x) ++ flat_map events_a (x_post x)
+  ++ [TEnd (x_out x) (x_used x) (x_err x)].
+Definition frame_call (x : txtree) : cframe :=
+  process_output
+    (CF (if x_create x then op_create else op_call) (x_from x) (Some (x_to x)) (x_input x) 0 0 [] ""%string
+        (map frame_c (x_body x)) (map frame_a (x_pre x) ++ map frame_a (x_post x)) (Some (x_value x)))
+    (x_out x) (x_err x).
+
+Theorem ct_call_exact x :
+  forallb wf_a (x_pre x) = true -> forallb wf_c (x_body x) = true -> forallb wf_a (x_post x) = true ->
+  match ct_run false t_init (events_call x) with Ok s => ct_result s | Err e => Err e | Panic e => Panic e end = Ok (frame_call x).
+Proof.
+  intros W2 W3 W4. apply forall_runs_a in W2, W4. apply forall_runs_c in W3.
+  unfold events_call, t_init. cbn [ct_run ct_step t_stack t_gaslimit t_started upd_bottom rev app].
+  cbn [empty_frame o_frame o_marker].
+  change ({| t_stack := ?x; t_gaslimit := ?y; t_started := ?z |}) with (st x y z).
+  change ({| o_frame := ?x; o_marker := ?y |}) with (of x y).
+  assert (M0 : forall (l : list atree), match l with [] => 0 | _ :: _ => 0 end = 0) by (intros []; reflexivity).
+  rewrite (runs_aspects _ W2). rewrite M0. rewrite (runs_calls _ W3). rewrite (runs_aspects _ W4). rewrite M0.
+  cbn [ct_run ct_step st t_stack t_gaslimit t_started upd_bottom rev app of o_frame o_marker ct_result].
+  f_equal; unfold frame_call; cbn [cf_jps cf_set_jps cf_calls cf_set_calls app]; rewrite <- ?app_assoc; reflexivity.
+Qed.
+
 (** ** callTracer with onlyTopCall *)
 Definition top_runs_c (t : ctree) : Prop :=
   forall f m rest g b k, forallb af_exited (aspects_c t) = true /\
